@@ -20,7 +20,7 @@ Your task: produce TWO independent source changes (mutants {L1} and {L2}, using 
   2. still compiles (`go build ./...` and `go vet` clean enough to build tests),
   3. still passes the repository's existing test suite, unedited (`go test -vet=off -count=1 -timeout 25m ./...` in the worktree; the suite binds loopback ports, so if a test fails in a way unrelated to your change re-run that test alone once before concluding; do not run more than one full-suite run at a time),
   4. is REALISTIC and SUBTLE: the kind of slip a maintainer could make in a refactor or optimisation (an off-by-one in a comparison, a dropped guard, a wrong variable, a reordered pair of statements, a missing case, an early return, a budget miscalculation, a lock released too early...). It must need something specific to manifest - a particular interleaving, a crash or fault at a particular point, a multi-step sequence of operations, an unusual input, or two cooperating sites that each look fine alone. Do NOT produce changes that ordinary use would expose at once (e.g. nothing works any more), and do not add obviously malicious code, special-case magic values, or touch test files, build tags, or the file verif_hooks.go.
-For each mutant also write a DEMONSTRATION: a Go test file (package memberlist, placed in the worktree root only while you run it, e.g. zz_demo_test.go) containing one test that FAILS with the change applied and PASSES on the unchanged worktree (git stash / git checkout to compare). The demo should exercise the real code (internal functions are fine since it is in-package) and fail by an assertion that corresponds to the property, not by an incidental detail.
+For each mutant also write a DEMONSTRATION: a Go test file (package memberlist, placed in the worktree root only while you run it, e.g. zz_demo_test.go) containing one test that FAILS with the change applied and PASSES on the unchanged worktree (to compare: `git diff > /tmp/seed/{pid}/out/X.diff; git checkout -- .; ...; git apply /tmp/seed/{pid}/out/X.diff`; do NOT use `git stash`, it is shared by all worktrees of the repository). The demo should exercise the real code (internal functions are fine since it is in-package) and fail by an assertion that corresponds to the property, not by an incidental detail.
 
 Environment (offline sandbox): run Go with `export GOFLAGS=-mod=mod GOPROXY=off` in every shell call; do not set GOTOOLCHAIN or GOSUMDB. The first build takes ~40 s. There is no network.
 
